@@ -297,6 +297,9 @@ func runC14(r *Run) {
 			mu.Unlock()
 			if rg.Chance(50) {
 				wl.c.node.Stop()
+				if wl.c.node.CloseStuck {
+					break
+				}
 				wl.c.node = wl.w.StartNode("n1", wl.nodeDir, nil)
 				wl.prog = append(wl.prog, "restart")
 			} else {
